@@ -238,9 +238,8 @@ Definition close_send (c : nat) (x : cx) : cx :=
   end).
 
 (* tail of _flush_send_buf (after the send loop left the buffer in class sbuf) *)
-Definition flush_tail (c : nat) (x : cx) : cx :=
+Definition flush_tail2 (c : nat) (x : cx) : cx :=
   force x (fun x =>
-  let x := prw c x in
   match sbuf (x_ch x) with
   | BEmpty => match ss (x_ch x) with
               | SEofPending => upc (set_ss SEof) (csend (KtEof c) x)
@@ -249,6 +248,7 @@ Definition flush_tail (c : nat) (x : cx) : cx :=
               end
   | _ => x
   end).
+Definition flush_tail (c : nat) (x : cx) : cx := flush_tail2 c (prw c x).
 
 (* write_eof *)
 Definition write_eof (c : nat) (x : cx) : cx :=
@@ -272,24 +272,31 @@ Definition chan_adjust (c : nat) (cls : bcls) (x : cx) : cx :=
   let x := match sbuf (x_ch x) with BEmpty => x | _ => upc (set_sbuf cls) x end in
   flush_tail c x).
 
-(* _flush_recv_buf(exc) *)
-Definition flush_recv (c : nat) (e : bool) (x : cx) : cx :=
+(* _flush_recv_buf(exc): deliver buffered data unless paused; then a pending EOF; then a pending close *)
+Definition flush_recv1 (c : nat) (x : cx) : cx :=
   force x (fun x =>
-  let x := match rbuf (x_ch x), rpause (x_ch x) with
-           | true, PRunning => sess_data c (upc (set_rbuf false) x)
-           | _, _ => x
-           end in
-  let x := match rbuf (x_ch x), rpause (x_ch x), rs (x_ch x) with
-           | false, PStarting, _ => x
-           | false, _, REofPending =>
-               let x := sess_eof c (upc (set_rs REof) x) in
-               if negb (keep (x_ch x)) then write_eof c x else x
-           | _, _, _ => x
-           end in
+  match rbuf (x_ch x), rpause (x_ch x) with
+  | true, PRunning => sess_data c (upc (set_rbuf false) x)
+  | _, _ => x
+  end).
+Definition flush_recv2 (c : nat) (x : cx) : cx :=
+  force x (fun x =>
+  match rbuf (x_ch x), rpause (x_ch x), rs (x_ch x) with
+  | false, PStarting, _ => x
+  | false, _, REofPending =>
+      let x := sess_eof c (upc (set_rs REof) x) in
+      if negb (keep (x_ch x)) then write_eof c x else x
+  | _, _, _ => x
+  end).
+Definition flush_recv3 (c : nat) (e : bool) (x : cx) : cx :=
+  force x (fun x =>
   match rbuf (x_ch x), rs (x_ch x) with
   | false, RClosePending => xk (KChanCleanup c e) (upc (set_rs RClosed) x)
   | _, _ => x
   end).
+Definition flush_recv (c : nat) (e : bool) (x : cx) : cx :=
+  force x (fun x =>
+  flush_recv3 c e (flush_recv2 c (flush_recv1 c x))).
 
 (* _discard_recv *)
 Definition discard_recv (c : nat) (x : cx) : cx :=
@@ -300,17 +307,18 @@ Definition discard_recv (c : nat) (x : cx) : cx :=
   | _ => x
   end).
 
-(* close() *)
-Definition chan_close (c : nat) (x : cx) : cx :=
+(* close() / abort(): the sending half, then (both) the receiving half *)
+Definition chan_close1 (c : nat) (x : cx) : cx :=
   force x (fun x =>
-  let x := if ss_closing (ss (x_ch x)) then x else flush_tail c (upc (set_ss SClosePending) x) in
-  match rs (x_ch x) with RClosed => x | _ => discard_recv c x end).
-
-(* abort() *)
-Definition chan_abort (c : nat) (x : cx) : cx :=
+  if ss_closing (ss (x_ch x)) then x else flush_tail c (upc (set_ss SClosePending) x)).
+Definition chan_abort1 (c : nat) (x : cx) : cx :=
   force x (fun x =>
-  let x := if ss_closing (ss (x_ch x)) then x else close_send c x in
+  if ss_closing (ss (x_ch x)) then x else close_send c x).
+Definition chan_close2 (c : nat) (x : cx) : cx :=
+  force x (fun x =>
   match rs (x_ch x) with RClosed => x | _ => discard_recv c x end).
+Definition chan_close (c : nat) (x : cx) : cx := chan_close2 c (chan_close1 c x).
+Definition chan_abort (c : nat) (x : cx) : cx := chan_close2 c (chan_abort1 c x).
 
 (* pause_reading / resume_reading *)
 Definition chan_pause (x : cx) : cx := upc (set_rpause PPaused) x.
@@ -321,20 +329,29 @@ Definition chan_resume (c : nat) (x : cx) : cx :=
   | _ => flush_recv c false (upc (set_rpause PRunning) x)
   end).
 
-(* _cleanup(exc) *)
-Definition chan_cleanup (c : nat) (e : bool) (x : cx) : cx :=
+(* _cleanup(exc): open / request waiters, session, close event, unregistration *)
+Definition cleanup1 (c : nat) (e : bool) (x : cx) : cx :=
   force x (fun x =>
-  let x := match pc (x_ch x) with
-           | CWaitOpen => xk (KCreate c) (upc (set_pc (COpenRes WErr)) x)
-           | CWaitReq st => xk (KCreate c) (upc (set_pc (CReqRes st (if e then WErr else WFalse))) x)
-           | _ => x
-           end in
-  let x := match se (x_ch x) with SLive => sess_lost c e x | _ => x end in
-  let x := xds (repeat (WClosed, c, WOk) (closed_w (x_ch x)))
-               (upc (fun ch => set_closed_w 0 (set_cev true ch)) x) in
+  match pc (x_ch x) with
+  | CWaitOpen => xk (KCreate c) (upc (set_pc (COpenRes WErr)) x)
+  | CWaitReq st => xk (KCreate c) (upc (set_pc (CReqRes st (if e then WErr else WFalse))) x)
+  | _ => x
+  end).
+Definition cleanup2 (c : nat) (e : bool) (x : cx) : cx :=
+  force x (fun x =>
+  match se (x_ch x) with SLive => sess_lost c e x | _ => x end).
+Definition cleanup3 (c : nat) (x : cx) : cx :=
+  force x (fun x =>
+  xds (repeat (WClosed, c, WOk) (closed_w (x_ch x)))
+      (upc (fun ch => set_closed_w 0 (set_cev true ch)) x)).
+Definition cleanup4 (x : cx) : cx :=
+  force x (fun x =>
   if reg (x_ch x)
   then upc (fun ch => set_ncleanup (S (ncleanup ch)) (set_schan false (set_reg false ch))) x
   else x).
+Definition chan_cleanup (c : nat) (e : bool) (x : cx) : cx :=
+  force x (fun x =>
+  cleanup4 (cleanup3 c (cleanup2 c e (cleanup1 c e x)))).
 
 (* process_connection_close(exc) *)
 Definition conn_close_chan (c : nat) (e : bool) (x : cx) : cx :=
@@ -357,13 +374,16 @@ Definition chan_pclose (c : nat) (x : cx) : cx :=
   flush_recv c false (upc (set_rs RClosePending) (close_send c x))).
 
 (* _process_request -> handler -> _report_response (synchronous handlers) *)
+Definition chan_request1 (c : nat) (want accept : bool) (x : cx) : cx :=
+  force x (fun x =>
+  if want && negb (ss_closing (ss (x_ch x))) then csend (KtReply c accept) x else x).
+Definition chan_request2 (c : nat) (x : cx) : cx :=
+  force x (fun x =>
+  chan_resume c (match se (x_ch x) with SLive => upc (addlog CbStarted) x | _ => x end)).
 Definition chan_request (c : nat) (final want accept : bool) (x : cx) : cx :=
   force x (fun x =>
-  let x := if want && negb (ss_closing (ss (x_ch x))) then csend (KtReply c accept) x else x in
-  if accept && final
-  then let x := match se (x_ch x) with SLive => upc (addlog CbStarted) x | _ => x end in
-       chan_resume c x
-  else x).
+  if accept && final then chan_request2 c (chan_request1 c want accept x)
+  else chan_request1 c want accept x).
 
 (* SSHClientChannel.create(): one run of the coroutine up to its next suspension *)
 Definition create_done (c : nat) (r : wres) (x : cx) : cx :=
